@@ -52,6 +52,16 @@ func wrap() templ.Component {
 	})
 }
 
+// evaluation trace (C02: expressions are evaluated only where control flow reaches them, once)
+var traceLog []string
+
+func trS(k, v string) string { traceLog = append(traceLog, k); return v }
+
+func trScript(k string) templ.ComponentScript {
+	traceLog = append(traceLog, k)
+	return templ.ComponentScript{Name: "f_" + k, Function: "function f_" + k + "(){}", Call: "f_" + k + "()", CallInline: "f_" + k + "()"}
+}
+
 func ignore() templ.Component {
 	return templ.ComponentFunc(func(ctx context.Context, w io.Writer) error {
 		_, err := io.WriteString(w, "(i)")
